@@ -879,6 +879,7 @@ GenOut gen_planted(Rng &rng, int *kind_out) {
         GenOut g = genstream(in, Bytes(), rng);
         Bytes body = g.bytes.substr(4);      // starts exactly at a block magic
         if (rng.below(2)) body.resize(body.size() - 10);   // drop the end-of-stream marker: candidate followed by whatever comes next
+        else if (rng.below(3) == 0 && body.size() > 60) body.resize(body.size() - 10 - 1 - rng.below(24));   // cut inside the last block's data: its speculative decoding runs on into whatever follows and fails late
         if (in_symbols && body.find((char)0xFF) != Bytes::npos) continue;
         dst += body;
         return true;
